@@ -425,6 +425,18 @@ func GenFault(t *testing.T, r *rand.Rand, prop, tier string, progress *atomic.In
 	switch kind {
 	case "C13":
 		o.Faults = []store.Fault{{Kind: "panic", At: pos(anyK)}}
+		if r.Intn(4) == 0 {
+			// Cancel()/Close() from a second goroutine, biased to the moment Exec returns and the
+			// caller closes the query itself: a panic inside them is a crash of the host too
+			if r.Intn(2) == 0 {
+				o.Faults = nil
+			}
+			o.ClientCancelStep = d.Start + 1 + r.Intn(execSteps*2)
+			if r.Intn(2) == 0 && execSteps > 8 {
+				o.ClientCancelStep = d.End - r.Intn(8)
+			}
+			o.ClientClose = r.Intn(2) == 0
+		}
 	case "C15":
 		o.Faults = []store.Fault{{Kind: "err", At: pos(failK)}}
 		if r.Intn(4) == 0 {
